@@ -63,5 +63,5 @@ Section Errors.
       check_template ko (find_template (r_templates (cr_reg r))) t = Some e -> bundle_error (ECheck (t_name t) e)
   (* ... or uses a global that is not defined *)
   | BE_global r t e : add_all_files empty_creg srcs = COk r -> In t (r_templates (cr_reg r)) ->
-      set_globals_template ko (bg_map bg) t = Some e -> bundle_error (EGlobal (t_name t) e).
+      set_globals_template ko (bg_map bg) t = Some e -> bundle_error (EGlobalErr (t_name t) e).
 End Errors.
